@@ -300,11 +300,9 @@ def run_case(case):
 
     variants = PERMS if case["group"] == "perm" else SUBS
     seen = set()
-    for idx in variants:
-        aspect = "perm" if len(idx) == 4 else ("singleton" if len(idx) == 1 else "pair")
-        if idx == [0, 1, 2, 3]:
-            continue
-        o = call(lambda: _apply(case, est, P.container(P.select(Xa, idx), appc, naming)))
+    def judge(idx, sfx, mkin):
+        aspect = ("perm" if len(idx) == 4 else ("singleton" if len(idx) == 1 else "pair")) + sfx
+        o = call(lambda: _apply(case, est, mkin()))
         res.evals += 1
         if not o.ok:
             k3 = "%s:%s:raises" % (key, aspect)
@@ -313,7 +311,7 @@ def run_case(case):
                 res.violate(k3, "apply raises on instances %s although the batch works" % idx,
                             expected="%d rows" % len(idx), observed=o.brief())
             res.outcome("%s:%s:%s" % (case["kind"], aspect, o.kind))
-            continue
+            return
         V = o.value
         for oname in V:
             k2 = key if oname == "out" else key + ":" + oname
@@ -339,5 +337,14 @@ def run_case(case):
                                 "of instance %d (fit=%s apply=%s)" % (pos, idx, i, fitc, appc),
                                 expected=P.row_brief(exp[pos]), observed=P.row_brief(got[pos]))
                 break
+
+    for idx in variants:
+        if idx == [0, 1, 2, 3]:
+            continue
+        judge(idx, "", lambda: P.container(P.select(Xa, idx), appc, naming))
+        if appc == "nested":
+            # the same instances selected from the batch frame with their row labels kept (the
+            # labels are then not 0..n-1 in order)
+            judge(idx, ":rowlabels", lambda: P.container(Xa, "nested", naming).iloc[idx])
     res.outcome("%s:%s:done" % (case["kind"], case["group"]))
     return res
